@@ -558,6 +558,11 @@ impl<'l, Data> EventLoop<'l, Data> {
             }
         }
 
+        // The first error reported by a source. It is returned once the whole batch has been
+        // processed: the events already collected for the other sources must not be lost (the
+        // poller does not report one-shot or edge-triggered readiness a second time)
+        let mut first_error = None;
+
         for event in self.synthetic_events.drain(..).chain(events) {
             // Get the registration token associated with the event.
             let reg_token = event.token.inner.forget_sub_id();
@@ -667,14 +672,17 @@ impl<'l, Data> EventLoop<'l, Data> {
                 }
 
                 if let Some(err) = failure {
-                    return Err(err);
+                    first_error.get_or_insert(err);
                 }
             } else {
                 warn!(?reg_token, "Received an event for non-existent source");
             }
         }
 
-        Ok(())
+        match first_error {
+            Some(err) => Err(err),
+            None => Ok(()),
+        }
     }
 
     fn dispatch_idles(&mut self, data: &mut Data) {
